@@ -120,7 +120,7 @@ Proof.
   cbn zeta. rewrite on_settings_split. destruct (reset_applies s cmd).
   - pose proof (forget_blocks_static (s_blocks s) s h) as P. cbv zeta in P.
     destruct (forget_blocks s (s_blocks s)) as [s1 o1]. cbn [fst snd] in *.
-    rewrite get_set_toc, get_set_blocks. tauto.
+    rewrite get_set_rp, get_set_toc, get_set_blocks. tauto.
   - unfold on_settings_old, assign_added, assign_started.
     walk; cbn [fst snd]; put_cases; auto.
 Qed.
@@ -393,4 +393,16 @@ Proof.
   intros Hv Ha. pose proof (add_config_effect s h Hv) as P.
   destruct (add_config s h) as [[s1 o] a]. cbn [fst snd] in *. destruct P as (_ & _ & C & _).
   apply C. rewrite Ha. discriminate.
+Qed.
+
+(* ------------------------------------------------------------------ every accepted add binds the configuration to the session *)
+Lemma accepted_binds_session s h : valid_h s h = true -> snd (add_config s h) = AccAccepted ->
+  let s1 := fst (fst (add_config s h)) in
+  c_v2 (get s1 h) = s_v2 s /\ c_id (get s1 h) = s_counter s /\ c_cf (get s1 h) = true.
+Proof.
+  intros Hv. cbn zeta. unfold add_config. destruct (negb (s_link s)); [discriminate|].
+  destruct (match c_dfa (get s h) with [] => Ok (get s h) | _ :: _ => _ end) as [c1|[]]; try discriminate.
+  destruct (check_vars _ _ _); try discriminate.
+  destruct ((size <=? g_max_len) && _); [|discriminate]. intros _. cbn [fst snd].
+  rewrite get_set_blocks, get_set_counter, get_put, Hv, Nat.eqb_refl. cbn [andb]. repeat split.
 Qed.
